@@ -79,6 +79,14 @@ type steps struct {
 	bindReply string
 	// the SCRAM server has sent its final message
 	scramDone bool
+	// the peer's stream headers carry this to attribute ("" none)
+	headerTo string
+}
+
+func withHeaderTo(tr transcript, to string) transcript {
+	tr.name += " peer-header-to=" + to + " fails=true"
+	tr.prep = func(st *steps) { st.headerTo = to }
+	return tr
 }
 
 func withBindReply(tr transcript, kind string) transcript {
@@ -370,7 +378,7 @@ func fullInitiator(ws bool, withVol bool, volFails bool, s2s bool) transcript {
 			}))
 		},
 		script: func(st *steps, p *wire.Reactive, fresh []byte) []byte {
-			h := hdr(ws, ns, server.String(), "", "s1")
+			h := hdr(ws, ns, server.String(), st.headerTo, "s1")
 			switch {
 			case isHeader(fresh, ws):
 				st.n++
@@ -552,8 +560,9 @@ type result struct {
 	err      error
 	panicked string
 	returned bool
-	fed      int   // bytes of the peer transcript delivered
-	bounds   []int // cumulative transcript length after each peer message
+	fed      int      // bytes of the peer transcript delivered
+	bounds   []int    // cumulative transcript length after each peer message
+	msgs     [][]byte // the peer's messages
 	reads    int
 	writes   int
 	ops      int
@@ -605,6 +614,7 @@ func runWith(tr transcript, f fault, plainRW bool) result {
 		}
 		res.fed += len(reply)
 		res.bounds = append(res.bounds, res.fed)
+		res.msgs = append(res.msgs, append([]byte(nil), reply...))
 		return reply
 	})
 	if f.kind == "block" {
@@ -671,6 +681,17 @@ func runWith(tr transcript, f fault, plainRW bool) result {
 			return netTimeout{}
 		}
 		return nil
+	}
+	if f.kind == "readerrdata" {
+		// read number f.n delivers its data and reports a failure in the same
+		// call; the transport keeps delivering afterwards (the error is not
+		// repeated)
+		peer.Conn.WithData = func(n, k int) error {
+			if n == f.n {
+				return wire.ErrInjected
+			}
+			return nil
+		}
 	}
 	if f.kind == "writelate" {
 		// the bytes of write f.n reach the peer (which answers as usual) but the
@@ -749,6 +770,21 @@ func judge(tr transcript, f fault, base, r result) string {
 	case "cut":
 		if f.n >= base.fed {
 			return ""
+		}
+	case "readerrdata":
+		// (the data of that read is delivered: when it was the last read the
+		// handshake needed, completing is legitimate)
+		if f.n >= base.reads-1 || f.n >= len(base.msgs)-1 {
+			return ""
+		}
+		// (what is read right before a stream restart is read by a decoder that
+		// is then replaced, together with whatever its buffer still held: an
+		// error that is reported once, with the last bytes of the old stream,
+		// has no later read to surface in)
+		for _, mark := range []string{"<proceed", "<success", "<starttls", "<auth"} {
+			if bytes.Contains(base.msgs[f.n], []byte(mark)) {
+				return ""
+			}
 		}
 	case "readerr", "readtimeout":
 		if f.n >= base.reads {
@@ -832,6 +868,10 @@ func TestC04Sweep(t *testing.T) {
 		for n := 0; n < base.writes; n++ {
 			ev.Case(true, fmt.Sprintf("%s writetimeout@%d", tr.name, n), "write-fails-with-timeout-error")
 			checkFault(t, tr, fault{kind: "writetimeout", n: n}, n%3 == 2, base)
+		}
+		for n := 0; n < base.reads; n++ {
+			ev.Case(true, fmt.Sprintf("%s readerrdata@%d", tr.name, n), "read-delivers-data-and-an-error")
+			checkFault(t, tr, fault{kind: "readerrdata", n: n}, n%2 == 0, base)
 		}
 		for n := 0; n < base.writes; n++ {
 			ev.Case(true, fmt.Sprintf("%s writelate@%d", tr.name, n), "write-delivered-but-reported-failed")
@@ -996,6 +1036,24 @@ func TestC04RefusedBind(t *testing.T) {
 	}
 }
 
+// TestC04BadHeaderAddress: the step that reads the peer's stream header fails
+// (the header's to attribute is not an address) under both framings.
+func TestC04BadHeaderAddress(t *testing.T) {
+	ev.Begin(t)
+	for _, ws := range []bool{false, true} {
+		for _, to := range []string{"me@@example.net", "@example.net", "juliet@example.net/"} {
+			tr := withHeaderTo(fullInitiator(ws, false, false, false), to)
+			for _, plain := range []bool{false, true} {
+				ev.Case(true, fmt.Sprintf("%s plain=%v", tr.name, plain), "header-step-fails", fmt.Sprintf("header-step-fails-ws=%v", ws))
+				r := runWith(tr, fault{kind: "none"}, plain)
+				if msg := judgeMust(r); msg != "" {
+					ev.Failf(t, "%s\nthe peer's stream header carries to=%q, which is not an address: reading the header fails\n%s", describe(tr, fault{kind: "none"}, plain, result{}, r), to, msg)
+				}
+			}
+		}
+	}
+}
+
 // TestC04Random draws transcript variants and faults at random (rapid).
 func TestC04Random(t *testing.T) {
 	trs := transcripts()
@@ -1006,10 +1064,10 @@ func TestC04Random(t *testing.T) {
 	ev.Check(t, 6000, 30000, func(rt *rapid.T) {
 		i := rapid.IntRange(0, len(trs)-1).Draw(rt, "transcript")
 		tr, base := trs[i], bases[i]
-		kind := rapid.SampledFrom([]string{"cut", "cut", "readerr", "readtimeout", "writeerr", "writetimeout", "writelate", "cancel", "cancel"}).Draw(rt, "kind")
+		kind := rapid.SampledFrom([]string{"cut", "cut", "readerr", "readtimeout", "readerrdata", "writeerr", "writetimeout", "writelate", "cancel", "cancel"}).Draw(rt, "kind")
 		max := base.fed
 		switch kind {
-		case "readerr", "readtimeout":
+		case "readerr", "readtimeout", "readerrdata":
 			max = base.reads
 		case "writeerr", "writelate", "writetimeout":
 			max = base.writes
